@@ -5,11 +5,11 @@
 
 #define AM_MAX_EVENTS 8192
 #define AM_MAX_BLOCKS 4096
-enum { AM_MALLOC = 1, AM_CALLOC, AM_REALLOC, AM_MEMALIGN, AM_FREE, AM_FREE_NULL };
+enum { AM_MALLOC = 1, AM_CALLOC, AM_REALLOC, AM_MEMALIGN, AM_FREE, AM_FREE_NULL, AM_MMAP };   /* a munmap of a library mapping is logged as AM_FREE with is_map set */
 enum { AM_BAD_NONE = 0, AM_BAD_DOUBLE, AM_BAD_FOREIGN, AM_BAD_INTERIOR, AM_BAD_DECOY, AM_BAD_OVERRUN };
 
 typedef struct {
-    int seq, op, obj, opidx, block, bad, failed_by_injection;
+    int seq, op, obj, opidx, block, bad, failed_by_injection, is_map;
     size_t size;
     void *ptr;
     long nonzero_at_free, nonzero_before, first_nonzero;
@@ -19,7 +19,7 @@ typedef struct {
 typedef struct {
     uint8_t *map; size_t span;
     uint8_t *ptr; size_t size;
-    int live, obj, id;
+    int live, obj, id, is_map;       /* is_map: obtained by the library with mmap (map/span unused) */
     long nz_before, nz_at_free;
 } am_block;
 
@@ -41,5 +41,5 @@ int am_live_blocks(void);
 long am_nonzero_live(int obj);
 void am_protect_obj(int obj, int readonly);   /* PROT_READ / PROT_READ|WRITE on the live blocks of obj */  /* counts non-zero bytes in live blocks of obj (-1 all) and remembers it per block */
 
-#define AM_WRAP_LDFLAGS "-Wl,--wrap=malloc,--wrap=calloc,--wrap=realloc,--wrap=free,--wrap=posix_memalign,--wrap=aligned_alloc,--wrap=memalign"
+#define AM_WRAP_LDFLAGS "-Wl,--wrap=malloc,--wrap=calloc,--wrap=realloc,--wrap=free,--wrap=posix_memalign,--wrap=aligned_alloc,--wrap=memalign,--wrap=mmap,--wrap=mmap64,--wrap=munmap"
 #endif
